@@ -12,6 +12,8 @@ R18.4 (effects) one MultiFrameData per frame with its own counter (instance fiel
 R18.5 defining_origin / channels / frames / origins derive from the logical file's own registry.
 R18.6 data set names are unique across all channels of the logical file (not only within one channel set), so inline
       data of one frame cannot overwrite another's.
+R18.7 = C07 R07.3: every reference (all reference-typed attributes, the no-format objects) is checked, on the write path,
+      to point into the same logical file.
 """
 
 from __future__ import annotations
@@ -32,7 +34,17 @@ EXPLANATION = ("Isolation is decided as a closed set of structural clauses: the 
                "dataset names. Not decided: decoded per-file inventories of real files (reader side).")
 
 
+def r18_7_references(chk):
+    """References stay inside their logical file: the generic membership check of C07 R07.3."""
+    from . import c07
+    n0 = len(chk.obs)
+    c07.r07_3_references(chk)
+    for o in chk.obs[n0:]:
+        o.rule = "R18.7"
+
+
 def run(chk):
+    chk.guard(r18_7_references, chk)
     chk.guard(r18_1, chk)
     chk.guard(r18_2_shared_registry_use, chk)
     chk.guard(r18_3_ownership, chk)
